@@ -96,3 +96,13 @@ UNITS = [
        bounded="retry loop <= 2 attempts",
        note="two runs, independent secret keys (valid or not), declassified values (nonce bytes/verdicts) equal; sig_sign / rfc6979 / ecmult_gen / ge_set_gej / ec_commit_seckey stubbed; seeded defect C06-1"),
 ]
+# --- alternative limb configuration (10x26 field, 8x32 scalar, modinv32): same harnesses, thorough tier ---
+for _n, _h, _e, _f in [("scalar_basic", "scalar.c", "h_ct_scalar_basic", SCALAR_BASIC), ("scalar_mul", "scalar.c", "h_ct_scalar_mul", ["secp256k1_scalar_mul", "secp256k1_scalar_sqr"]),
+                       ("scalar_inverse", "scalar.c", "h_ct_scalar_inverse", ["secp256k1_scalar_inverse", "secp256k1_modinv32"]),
+                       ("scalar_split_lambda", "scalar.c", "h_ct_scalar_split_lambda", ["secp256k1_scalar_split_lambda"]),
+                       ("fe_basic", "field.c", "h_ct_fe_basic", FE_BASIC), ("fe_mul", "field.c", "h_ct_fe_mul", ["secp256k1_fe_mul", "secp256k1_fe_sqr"]),
+                       ("fe_inv", "field.c", "h_ct_fe_inv", ["secp256k1_fe_inv", "secp256k1_modinv32"]), ("fe_sqrt", "field.c", "h_ct_fe_sqrt", ["secp256k1_fe_sqrt"]),
+                       ("group_cmov", "group.c", "h_ct_group_cmov", GROUP_BASIC), ("ge_set_gej", "group.c", "h_ct_ge_set_gej", ["secp256k1_ge_set_gej"]),
+                       ("gej_add_ge", "group.c", "h_ct_gej_add_ge", ["secp256k1_gej_add_ge"]), ("gej_double", "group.c", "h_ct_gej_double", ["secp256k1_gej_double"])]:
+    _u = CT(_n + ".W64", _h, _e, _f, cfg="W64", tier="thorough", timeout=1200, note="USE_FORCE_WIDEMUL_INT64: 10x26 field, 8x32 scalar, modinv32")
+    UNITS.append(_u)
